@@ -502,10 +502,12 @@ theorem serverRole_noDrop (H : Hs) (tok : Nat) (tt : Option Nat) : (serverRole H
       · exact hnd
       · split
         · exact hnd
-        · have := stt_sendType { c with token := tok, key := some (H.serverReply p tok).1, status := Status.connecting }
-            .serverHello (H.serverReply p tok).2 0 none
-          simp only [stt] at this
-          simp only [this]; simp
+        · split
+          · exact hnd
+          · have := stt_sendType { c with token := tok, key := some (H.serverReply p tok).1, status := Status.connecting }
+              .serverHello (H.serverReply p tok).2 0 none
+            simp only [stt] at this
+            simp only [this]; simp
   · intro c t p hnd
     show (serverChallenge H tt c t p).1.status ≠ .dropped
     unfold serverChallenge
